@@ -407,6 +407,62 @@ def scalar_check(ctx):
                 return
 
 
+def reset_check(ctx):
+    """After `generator.cache.reset()` the memo starts afresh — for every way of calling: within the new epoch a call by keywords, a
+    call by instance and a call made from inside another generator's body return one and the same module, the body having run once
+    (seed C09-r8-2: a memo of keyword calls that outlives the reset)."""
+    rep = ctx.rep
+    rng = ctx.rng
+
+    @h.paramclass
+    class P:
+        width = h.Param(dtype=int, desc="w", default=1)
+
+    for t in range(10 if ctx.quick else 150):
+        runs = []
+
+        def body(p: P) -> h.Module:
+            runs.append(p.width)
+            m = h.Module()
+            m.io = h.Port(width=p.width)
+            return m
+
+        body.__name__ = f"R{t}"
+        G = h.generator(body)
+
+        def outer(p: P) -> h.Module:
+            m = h.Module()
+            m.io = h.Port(width=p.width)
+            m.c = (G(width=p.width) if t % 2 else G(P(width=p.width)))(io=m.io)
+            return m
+
+        outer.__name__ = f"RO{t}"
+        O = h.generator(outer)
+        w = rng.randint(1, 3)
+        forms = [lambda: G(width=w), lambda: G(P(width=w)), lambda: O(width=w).c.of]
+        before = [rng.randrange(3) for _ in range(rng.randint(1, 3))]
+        after = [rng.randrange(3) for _ in range(rng.randint(2, 4))]
+        if len(set(after)) == 1:
+            after.append((after[0] + 1) % 3)
+        case = {"stream": "reset", "w": w, "before": before, "after": after, "t": t}
+        rep.count("reset", json.dumps(case))
+        try:
+            old = [forms[k]() for k in before]
+            h.generator.cache.reset()
+            del runs[:]
+            new = [forms[k]() for k in after]
+        except Exception as ex:  # noqa
+            rep.fail("corr", case, f"generator call raised {type(ex).__name__}: {str(ex)[:120]}")
+            continue
+        if any(x is not old[0] for x in old):
+            rep.fail("pred", case, "equal parameters returned two modules (before the reset)")
+        if any(x is not new[0] for x in new):
+            rep.fail("pred", case, f"after generator.cache.reset(): equal parameters, called {[('kw', 'inst', 'nested')[k] for k in after]}, returned different modules "
+                     f"({[x.name for x in new]})")
+        elif runs.count(w) != 1:
+            rep.fail("pred", case, f"after generator.cache.reset() the body ran {runs.count(w)} times for one parameter value")
+
+
 def uncached_check(ctx):
     """Generators with `enable_cache=False` return a new module per call, equal calls give equal names: a design holding
     two of them that differ is refused, or exported with a definition for each - never with one standing for both."""
@@ -826,6 +882,7 @@ def corpus_names():
     return [
         {"shape": [["a", "str"], ["b", "str"]], "values": [["x b=y", "z"], ["x", "y b=z"], ["x", "y"], ['q"', "\\"], ["q", '"\\']]},
         {"shape": [["a", "ostr"]], "values": [[None], ["None"], ["3"], [""]]},
+        {"shape": [["w", "float"], ["name", "str"]], "values": [[0.3, "poly"], [0.1 + 0.2, "poly"], [1.0, "poly"], [1.0000000000000002, "poly"], [1234567890123.0, "p"], [1234567890124.0, "p"]]},
         {"shape": [["a", "ofloat"], ["b", "oint"]], "values": [[None, 3], [3, None], [3.0, 3], [1e-11, 0], [0.1, -1]]},
         # an explicit None is a value, not "use the default"
         {"shape": [["width", "int"], ["guard", "oint", 2]], "values": [[4, None], [4, OMIT], [4, 2]]},
@@ -847,7 +904,9 @@ def run(ctx):
             return rng.choice(STRS + ([None] if dt == "ostr" and optional_none else []))
         if dt in ("int", "oint"):
             return rng.choice([0, 1, 3, -1, 10**30, 3.0] + ([None] if dt == "oint" and optional_none else []))
-        return rng.choice([0.1, 3, 3.0, 1e-11, 1e3, 1000.0, -0.0, 1e300] + ([None] if dt == "ofloat" and optional_none else []))
+        # (… and floats that differ in their last digits only: a readable name must tell them apart as the cache does — seed C09-r8-1)
+        return rng.choice([0.1, 3, 3.0, 1e-11, 1e3, 1000.0, -0.0, 1e300, 0.3, 0.1 + 0.2, 1234567890123.0, 1234567890124.0, 1.0000000000000002]
+                          + ([None] if dt == "ofloat" and optional_none else []))
 
     for _ in range(n):
         shape = [[k, rng.choice(list(DT))] for k in rng.sample(["a", "b", "c", "w", "name"], rng.randint(1, 4))]
@@ -867,6 +926,7 @@ def run(ctx):
     spellings_check(ctx)
     scalar_check(ctx)
     uncached_check(ctx)
+    reset_check(ctx)
     collections_check(ctx)
     hashed_check(ctx)
 
